@@ -366,7 +366,14 @@ def run_u_to_euler(u, desc, mod, modname, checks, tier):
             a0 = e[0]
             cc, sn_ = (a0.cs() if isinstance(a0, Angle) else (_cos1(a0), _sin1(a0)))
             okform = (not isinstance(e[2], (Angle, Q)) and e[2] == 0) and isinstance(e[1], Angle) and (e[1].c - v('cP')).iszero() and (e[1].s - v('sP')).iszero()
-            u.prove('C03/%s.u_to_euler/rebuild[lock-path]/form%s' % (modname, tag), pre, z3.BoolVal(bool(okform)), replay=rp,
+            if not okform:
+                # not the (phi1', PHI, 0) form the decomposition assumes: ask the 1e-6 bound itself entry by entry
+                for k, r in nz:
+                    for sg, op in ((-1, '<='), (1, '>=')):
+                        u.prove('C03/%s.u_to_euler/rebuild[lock-path]/direct' % modname, pre, zc.cmp0(r + sg * tol6, op), replay=rp,
+                                detail='entry %d,%d within 1e-6 on path %s' % (k // 3, k % 3, tag), timeout=qt, cvc5_timeout=qt)
+                continue
+            u.prove('C03/%s.u_to_euler/rebuild[lock-path]/form%s' % (modname, tag), pre, z3.BoolVal(True), replay=rp,
                     detail='lock branch returns (phi1\', PHI, 0)', timeout=qt)
             for nm, val, ref in (('cos', cc, cs), ('sin', sn_, ss)):
                 d = lift(val) - ref
